@@ -160,17 +160,17 @@ Definition poll_poll (now : N) (s : poll_scanner) (channel : N)
 
 Definition poll_reset : poll_scanner -> poll_scanner := reset_multi pollst poll_reset1.
 
-(** operations of a history; [PTick dt] advances the clock *)
-Inductive pollop := PFeed (b : bytes) | PPoll (channel : N) | PReset | PTick (dt : N).
+(** operations of a history: [sop] of Model/PerChannel.v; [OTick dt] advances the clock *)
+Definition pollop := sop.
 
 (** outputs of one operation (feed: two slots; poll: first slot; others: nothing) *)
 Definition poll_step (now : N) (s : poll_scanner) (o : pollop)
   : outcome (N * poll_scanner * out2) :=
   match o with
-  | PFeed b => r <- poll_feed now s b ;; Ok (now, fst r, snd r)
-  | PPoll c => r <- poll_poll now s c ;; Ok (now, fst r, (snd r, None))
-  | PReset => Ok (now, poll_reset s, (None, None))
-  | PTick dt => Ok (now + dt, s, (None, None))
+  | OFeed b => r <- poll_feed now s b ;; Ok (now, fst r, snd r)
+  | OPoll c => r <- poll_poll now s c ;; Ok (now, fst r, (snd r, None))
+  | OReset => Ok (now, poll_reset s, (None, None))
+  | OTick dt => Ok (now + dt, s, (None, None))
   end.
 
 Fixpoint poll_run (now : N) (s : poll_scanner) (h : list pollop)
